@@ -1798,6 +1798,170 @@ def _fold_table_lookups(tree):
     return n_done
 
 
+class _NotConst(Exception):
+    pass
+
+
+def _const_eval(e, env):
+    """value of a module-level expression built from literals, displays, comprehensions and names already evaluated (constant
+    folding of the SOURCE: nothing of the analysed program is imported or run)"""
+    if isinstance(e, ast.Constant):
+        return e.value
+    if isinstance(e, ast.Name):
+        if e.id in env:
+            return env[e.id]
+        raise _NotConst(e.id)
+    if isinstance(e, (ast.Tuple, ast.List, ast.Set)):
+        vals = []
+        for x in e.elts:
+            if isinstance(x, ast.Starred):
+                vals += list(_const_eval(x.value, env))
+            else:
+                vals.append(_const_eval(x, env))
+        return tuple(vals) if isinstance(e, ast.Tuple) else (list(vals) if isinstance(e, ast.List) else frozenset(vals))
+    if isinstance(e, ast.Dict):
+        out = {}
+        for k, v in zip(e.keys, e.values):
+            if k is None:
+                d = _const_eval(v, env)
+                if not isinstance(d, dict):
+                    raise _NotConst("** of a non-dict")
+                out.update(d)
+            else:
+                out[_const_eval(k, env)] = _const_eval(v, env)
+        return out
+    if isinstance(e, (ast.DictComp, ast.SetComp, ast.ListComp)) and len(e.generators) == 1 and not e.generators[0].is_async and isinstance(e.generators[0].target, ast.Name):
+        g = e.generators[0]
+        it = _const_eval(g.iter, env)
+        if isinstance(it, frozenset):
+            it = sorted(it, key=repr)         # iteration order of a set is not fixed: only order-free results are accepted below
+        out_d, out_l = {}, []
+        for x in it:
+            env2 = dict(env)
+            env2[g.target.id] = x
+            if not all(_const_eval(c, env2) for c in g.ifs):
+                continue
+            if isinstance(e, ast.DictComp):
+                out_d[_const_eval(e.key, env2)] = _const_eval(e.value, env2)
+            else:
+                out_l.append(_const_eval(e.elt, env2))
+        if isinstance(e, ast.DictComp):
+            return out_d
+        if isinstance(e, ast.SetComp):
+            return frozenset(out_l)
+        if isinstance(_const_eval(g.iter, env), frozenset):
+            raise _NotConst("list built from a set: order not fixed")
+        return out_l
+    if isinstance(e, ast.Compare) and len(e.ops) == 1:
+        a, b = _const_eval(e.left, env), _const_eval(e.comparators[0], env)
+        op = e.ops[0]
+        if isinstance(op, ast.In):
+            return a in b
+        if isinstance(op, ast.NotIn):
+            return a not in b
+        if isinstance(op, ast.Eq):
+            return a == b
+        if isinstance(op, ast.NotEq):
+            return a != b
+    if isinstance(e, ast.BinOp) and isinstance(e.op, (ast.BitOr, ast.BitAnd, ast.Sub)):
+        a, b = _const_eval(e.left, env), _const_eval(e.right, env)
+        if isinstance(a, frozenset) and isinstance(b, frozenset):
+            return a | b if isinstance(e.op, ast.BitOr) else (a & b if isinstance(e.op, ast.BitAnd) else a - b)
+    raise _NotConst(type(e).__name__)
+
+
+def _module_const_env(tree):
+    """{name: value} for module-level names bound once to a constant-foldable expression (sets as frozenset)"""
+    stores = {}
+    for n in ast.walk(tree):
+        if isinstance(n, ast.Name) and isinstance(n.ctx, (ast.Store, ast.Del)):
+            stores[n.id] = stores.get(n.id, 0) + 1
+        elif isinstance(n, (ast.Global, ast.Nonlocal)):
+            for x in n.names:
+                stores[x] = stores.get(x, 0) + 2
+        elif isinstance(n, ast.arg):
+            stores[n.arg] = stores.get(n.arg, 0) + 2
+    env = {}
+    for st in tree.body:
+        if isinstance(st, ast.Assign) and len(st.targets) == 1 and isinstance(st.targets[0], ast.Name) and stores.get(st.targets[0].id) == 1:
+            try:
+                env[st.targets[0].id] = _const_eval(st.value, env)
+            except (_NotConst, TypeError, ValueError, KeyError):
+                pass
+    return env
+
+
+def _expand_value_tables(tree):
+    """`v = TABLE.get(x)` / `TABLE[x]` where TABLE is a module constant {literal: one of a few literals} and x a plain name:
+    `if x in <keys of value 1>: v = <value 1> elif ...: ... else: v = None` (a key set equal to a named module-level set is written
+    by that name).  The decision the table encodes becomes branches again, which the passes above then thread into its uses."""
+    env = _module_const_env(tree)
+    tables = {k: v for k, v in env.items() if isinstance(v, dict) and v and all(isinstance(x, (str, int)) and not isinstance(x, bool) for x in v)
+              and all(x is None or (isinstance(x, (str, int)) and not isinstance(x, bool)) for x in v.values()) and len(set(v.values())) <= 4}
+    if not tables:
+        return 0
+    named_sets = {frozenset(v): k for k, v in env.items() if isinstance(v, frozenset) and v}
+    # the table is only ever read by .get / subscription
+    parents = {}
+    for p_ in ast.walk(tree):
+        for c in ast.iter_child_nodes(p_):
+            parents[id(c)] = p_
+    for n in ast.walk(tree):
+        if isinstance(n, ast.Name) and n.id in tables and isinstance(n.ctx, ast.Load):
+            p_ = parents.get(id(n))
+            ok = (isinstance(p_, ast.Subscript) and p_.value is n and isinstance(p_.ctx, ast.Load)) or \
+                (isinstance(p_, ast.Attribute) and p_.attr == "get" and isinstance(parents.get(id(p_)), ast.Call) and parents[id(p_)].func is p_)
+            if not ok:
+                tables.pop(n.id, None)
+    n_done = 0
+    for fn in [x for x in ast.walk(tree) if isinstance(x, FUNC)]:
+        local = {x.id for x in _walk_local(fn) if isinstance(x, ast.Name) and isinstance(x.ctx, (ast.Store, ast.Del))} | {a.arg for a in fn.args.posonlyargs + fn.args.args + fn.args.kwonlyargs}
+        for blk in _blocks(fn):
+            for i, st in enumerate(blk):
+                if not (isinstance(st, ast.Assign) and len(st.targets) == 1 and isinstance(st.targets[0], ast.Name)):
+                    continue
+                v, key, default, strict = st.value, None, None, False
+                if isinstance(v, ast.Call) and isinstance(v.func, ast.Attribute) and v.func.attr == "get" and isinstance(v.func.value, ast.Name) and v.func.value.id in tables \
+                        and not v.keywords and 1 <= len(v.args) <= 2 and _simple_arg(v.args[0]) and not isinstance(v.args[0], ast.Constant):
+                    tname, key = v.func.value.id, v.args[0]
+                    if len(v.args) == 2:
+                        if not isinstance(v.args[1], ast.Constant):
+                            continue
+                        default = v.args[1].value
+                elif isinstance(v, ast.Subscript) and isinstance(v.value, ast.Name) and v.value.id in tables and _simple_arg(v.slice) and not isinstance(v.slice, ast.Constant):
+                    tname, key, strict = v.value.id, v.slice, True
+                else:
+                    continue
+                if tname in local or any(nm in local for nm in named_sets.values() if nm in {x.id for x in ast.walk(fn) if isinstance(x, ast.Name)} and False):
+                    continue
+                groups = {}
+                for k_, val in tables[tname].items():
+                    groups.setdefault(val, []).append(k_)
+                target = st.targets[0]
+
+                def member(keys):
+                    nm = named_sets.get(frozenset(keys))
+                    if nm is not None and nm not in local:
+                        rhs = ast.Name(id=nm, ctx=ast.Load())
+                    else:
+                        rhs = ast.Set(elts=[ast.Constant(value=k_) for k_ in keys])
+                    return ast.Compare(left=copy.deepcopy(key), ops=[ast.In()], comparators=[rhs])
+
+                def bind(val):
+                    return ast.copy_location(ast.Assign(targets=[copy.deepcopy(target)], value=ast.Constant(value=val), lineno=st.lineno), st)
+                if strict:
+                    tail = [ast.copy_location(ast.Raise(exc=ast.Call(func=ast.Name(id="KeyError", ctx=ast.Load()), args=[copy.deepcopy(key)], keywords=[]), cause=None), st)]
+                else:
+                    tail = [bind(default)]
+                chain = tail
+                for val, keys in reversed(list(groups.items())):
+                    chain = [ast.copy_location(ast.If(test=member(keys), body=[bind(val)], orelse=chain), st)]
+                ast.fix_missing_locations(chain[0])
+                blk[i] = chain[0]
+                n_done += 1
+    return n_done
+
+
 def _chain_tests(st):
     out = [st.test]
     while len(st.orelse) == 1 and isinstance(st.orelse[0], ast.If):
@@ -2456,7 +2620,7 @@ def normalize(modname, tree):
                 if isinstance(m, FUNC):
                     unstable[m] = attrs
     stats.update({"comprehensions": 0, "named_values": 0, "merged_ifs": 0, "threaded": 0})
-    for round_ in range(3):
+    for round_ in range(4):
         progress = 0
         for n in ast.walk(tree):
             if isinstance(n, FUNC):
@@ -2477,7 +2641,7 @@ def normalize(modname, tree):
                     stats["threaded"] += k2
                     stats["named_values"] += _named_values(n, unstable.get(n))
                     progress += k2
-        k3 = _fold_table_lookups(tree)
+        k3 = _fold_table_lookups(tree) + _expand_value_tables(tree)
         stats["table_lookups"] = stats.get("table_lookups", 0) + k3
         progress += k3
         if not progress or inv is None:
@@ -2485,7 +2649,7 @@ def normalize(modname, tree):
         # verdicts threaded / starred literals spliced: calls of new helpers that could not be bound before may be inlinable now
         more = _Inliner(modname, tree, inv).run()
         stats["inlined"] += more
-        if not more:
+        if not more and not k3:
             break
     for n in ast.walk(tree):
         if isinstance(n, FUNC):
